@@ -21,6 +21,10 @@ CLAIMED = {
    technique="vocabulary and dispatch-table agreement between parser, matchers and printers on the AST with go/types constants + specificity constants vs the Selectors-4 table + case-folding provenance and i-flag plumbing on SSA + empty-value scenario reachability + escaping of quoted interpolations + division guards",
    text="Decides necessary conditions of selector matching/weighing: no parser output can reach a panicking default of a Match dispatcher; specificity constants and the max rule of :is/:not/:has are those of Selectors 4; combinators, attribute operators and structural pseudo-class names dispatch to the specified relation with the specified (a,b,last,ofType); names are ASCII-lowercased and the i flag reaches every comparison; substring/word operators cannot match with an empty value; printed selectors escape quoted values and use names the parser accepts. The matching algorithms themselves (sibling walks, an+b arithmetic, :empty, :lang) are not decided.",
    ref="4 C05"),
+ "C06": dict(
+   technique="constant evaluation of the tokenizer's lexical tables from the source: code point predicates evaluated for every code point 0..0x100 from their syntax trees, regular-expression constants extracted and matched against batteries derived from the CSS Syntax railroad diagrams, order and constants of the preprocessing replacements on SSA, case structure of the string consumer",
+   text="Thin: decides that input preprocessing, the name-start / name / whitespace code point classes, the number and hex-escape grammars and the termination rules of quoted strings are those of CSS Syntax 3. Token values in general, url(), nested blocks, !important, source positions and error recovery (how much input a malformed construct consumes) quantify over all input strings and are not decided; that no cursor read leaves the input is decided under C07.R1, not here.",
+   ref="4 C06, 12.6"),
  "C07": dict(
    technique="bounds/guard analysis over SSA (length by construction, path-condition reachability under len==n scenarios, inferred parameter preconditions checked at static and dynamic call sites, per-function tables of relational invariants) + hazard inventory (explicit panics, unchecked assertions, integer divisions) over the functions statically reachable from the parse entry points + dispatch-table totality",
    text="Decides necessary conditions of crash-freedom of the parsers of document text: every fixed-position read of a variable-length value is length-guarded (or is a counted, reasoned site), no explicit panic or unchecked assertion is reachable outside a reasoned table, no zero divisor, dispatch tables are total and validators/expanders are entered with tokens. Variable indices in general (444 sites counted in the evidence), nil dereferences, stack depth and termination are not decided.",
@@ -76,7 +80,6 @@ CLAIMED = {
 }
 
 NOT_APPLICABLE = {
- "C06": "the property is an equality between token/rule sequences and those of the CSS Syntax algorithms, and an exact-consumption claim about error recovery: both quantify over the values of tokens produced for every input string. Its only structural clause, that no cursor read of the tokenizer leaves the input, is already decided under C07.R1 over the same functions (css/parser is reached from the parse roots); claiming C06 through that clause alone would present a crash-freedom rule as a tokenization verdict",
  "C02": "conservation of text across line/page fragmentation is a multiset equality over runtime layout values and resume stacks; no clause is visible in the shape of the code (DESIGN.md section 5)",
  "C13": "grid consistency is a set of equalities/inequalities between computed float positions after a width-distribution algorithm; the only structural clauses (two-keyword vocabularies) are too small to stand for the property (DESIGN.md section 5)",
 }
